@@ -75,7 +75,10 @@ func c05DocCond(r *rand.Rand, values val.Item) *refmodel.Cond {
 		return refmodel.Operand{Kind: "path", Path: p}
 	}
 	eq := func() string { return mon.Pick(r, []string{"=", "<>"}) }
-	switch r.Intn(25) {
+	switch r.Intn(26) {
+	case 25:
+		// the request's value FIRST (":limit > used", ":now >= expires"), often equal to the stored one (in another notation too)
+		return &refmodel.Cond{Op: "cmp", Cmp: mon.Pick(r, []string{"<", "<=", ">", ">="}), Args: []refmodel.Operand{nv(val.Num(mon.Pick(r, []string{"0", "1", "2", "3", "1.0", "2.00"}))), mon.Pick(r, []refmodel.Operand{pt("cfg", "lvl"), pt("v"), pt("lo"), pt("hi")})}}
 	case 24:
 		// IN with ONE member, of every kind of value a guard reads: a flag, a null marker, a set, a document
 		switch r.Intn(5) {
